@@ -28,12 +28,13 @@ func init() {
 		},
 	}
 	Props["C14"] = PropDef{
-		Explanation: "T-REGIDX index orientation and slot offsets; R-ORDER dominance / must-follow on an inlined view (refusal, header and occupancy mirroring, Load and table loops, free-space search); R-TLG; R-TRUNC signed narrowing; R-ERRFLOW; T-REGIDX slot offsets of every header-slot writer. Decided: Index orientation agrees with the file layout and both header slots are written at their offsets; the over-limit refusal dominates all mutation and bounds the packed sector count; header and occupancy stay mirrored; Load and table loops cover every entry; location fields are not sign-extended. Disjointness over histories is not decided.",
+		Explanation: "T-REGIDX index orientation and slot offsets; R-ORDER dominance / must-follow on an inlined view (refusal, header and occupancy mirroring, Load and table loops, free-space search); R-TLG; R-TRUNC signed narrowing; R-ERRFLOW; T-REGIDX slot offsets of every header-slot writer; T-REGIDX single-clock (file and memory time stamp from one clock reading). Decided: Index orientation agrees with the file layout and both header slots are written at their offsets; the over-limit refusal dominates all mutation and bounds the packed sector count; header and occupancy stay mirrored; Load and table loops cover every entry; location fields are not sign-extended. The time stamp on disk and the one in memory come from one clock reading. Disjointness over histories is not decided.",
 		Run: func(c *Ctx) []core.Ob {
 			obs := c.RegionIndex()
 			obs = append(obs, c.RegionOrder()...)
 			obs = append(obs, c.RegionFindSpace()...)
 			obs = append(obs, c.RegionSlotOffsets()...)
+			obs = append(obs, c.RegionSingleClock("save/region")...)
 			obs = append(obs, c.TableLoopsCover("save/region")...)
 			obs = append(obs, c.SignedNarrowing("save/region")...)
 			in := pkgPred("save/region")
